@@ -30,6 +30,7 @@ class Contract:
     models = ()                   # extra installers fn(reg)
     assumptions = ()              # strings copied to the evidence
     use_summaries = True
+    cover_any = False             # True: a cover point need only be reachable on some explored path (see runner)
 
     def name(self):
         return f'{self.path}:{self.qualname}'
